@@ -899,3 +899,93 @@ Proof.
   intros s Htp Hch Hkl Hm. destruct (counter_exact cfg ops tp ch kl Htp Hch Hkl Hm) as [E _].
   fold s in E. rewrite E. unfold owned. lia.
 Qed.
+
+(* ------------------------------------------------------------------ connected and subscribed => attached *)
+(* Every consumer that is connected (alive) and subscribed is attached to its channel, so
+   counter_exact applies to every connected subscribed consumer.  (Deleting a channel or a
+   topic closes its consumers; an ephemeral channel only goes with its last consumer.) *)
+Definition Attached (s : state) (k t c : N) : Prop :=
+  exists tp ch, In tp (s_topics s) /\ t_id tp = t /\ In ch (t_chans tp) /\ c_id ch = c /\ In k (c_clients ch).
+
+Definition AliveSub (s : state) : Prop :=
+  forall kl t c, In kl (s_clients s) -> k_alive kl = true -> k_sub kl = Some (t, c) -> Attached s (k_id kl) t c.
+
+(* attachments survive a per-channel map that keeps ids and members *)
+Lemma Attached_upd_topic_chans s t0 (F : topic -> topic) k t c :
+  (forall tp, exists g : chan -> chan, t_id (F tp) = t_id tp /\ t_chans (F tp) = map g (t_chans tp)
+                                     /\ forall ch, c_id (g ch) = c_id ch /\ incl (c_clients ch) (c_clients (g ch))) ->
+  Attached s k t c -> Attached (upd_topic s t0 F) k t c.
+Proof.
+  intros HF (tp & ch & Htp & Et & Hch & Ec & Hk).
+  destruct (HF tp) as (g & E1 & E2 & Hg).
+  destruct (N.eqb_spec (t_id tp) t0) as [Q|Q].
+  - exists (F tp), (g ch). repeat split.
+    + change (s_topics (upd_topic s t0 F)) with (map (fun x => if t_id x =? t0 then F x else x) (s_topics s)).
+      apply in_map_iff. exists tp. rewrite Q, N.eqb_refl. auto.
+    + congruence.
+    + rewrite E2. apply in_map, Hch.
+    + destruct (Hg ch) as [A _]. congruence.
+    + destruct (Hg ch) as [_ B]. apply B, Hk.
+  - exists tp, ch. repeat split; auto.
+    change (s_topics (upd_topic s t0 F)) with (map (fun x => if t_id x =? t0 then F x else x) (s_topics s)).
+    apply in_map_iff. exists tp. apply N.eqb_neq in Q. rewrite Q. auto.
+Qed.
+
+Lemma Attached_upd_chan s t0 c0 f k t c :
+  (forall ch, c_id (f ch) = c_id ch /\ incl (c_clients ch) (c_clients (f ch))) ->
+  Attached s k t c -> Attached (upd_chan s t0 c0 f) k t c.
+Proof.
+  intros Hf. apply Attached_upd_topic_chans. intros tp.
+  exists (fun x => if c_id x =? c0 then f x else x). split; [reflexivity|split; [reflexivity|]].
+  intros ch. destruct (c_id ch =? c0); [apply Hf|split; [reflexivity|apply incl_refl]].
+Qed.
+
+Lemma Attached_pump_topic cfg now s t0 k t c : Attached s k t c -> Attached (pump_topic cfg now s t0) k t c.
+Proof.
+  apply Attached_upd_topic_chans. intros tp. unfold pump. destruct (t_paused tp).
+  - exists (fun ch => ch). rewrite map_id. split; [reflexivity|split; [reflexivity|]]. intros; split; [reflexivity|apply incl_refl].
+  - destruct (t_chans tp) as [|ch0 chs] eqn:E.
+    + exists (fun ch => ch). rewrite E. split; [reflexivity|split; [reflexivity|]]. intros; split; [reflexivity|apply incl_refl].
+    + exists (fun ch => fold_left (fun ch m => chan_receive cfg now m ch) (t_queue tp) ch). cbn. rewrite E.
+      split; [reflexivity|split; [reflexivity|]]. intros ch.
+      destruct (fold_chan_receive_le cfg now (t_queue tp) ch) as (A & B & _).
+      split; [congruence|]. 
+      (* chan_receive keeps the members exactly *)
+      clear. revert ch. induction (t_queue tp) as [|m q IH]; intros ch; cbn; [apply incl_refl|].
+      eapply incl_tran; [|apply IH]. unfold chan_receive, chan_put.
+      destruct (m_defer m =? 0)%Z; [destruct (c_eph _ && _)|]; cbn; apply incl_refl.
+Qed.
+
+Lemma Attached_topic_only s t0 (F : topic -> topic) k t c :
+  (forall tp, t_id (F tp) = t_id tp /\ t_chans (F tp) = t_chans tp) ->
+  Attached s k t c -> Attached (upd_topic s t0 F) k t c.
+Proof.
+  intros HF. apply Attached_upd_topic_chans. intros tp. exists (fun ch => ch). rewrite map_id.
+  destruct (HF tp). split; [assumption|split; [assumption|]]. intros; split; [reflexivity|apply incl_refl].
+Qed.
+
+Lemma Attached_clients s l k t c : Attached (s <| s_clients := l |>) k t c <-> Attached s k t c.
+Proof. unfold Attached. destruct s; cbn. reflexivity. Qed.
+
+Lemma Attached_same_topics s s' k t c : s_topics s' = s_topics s -> Attached s k t c -> Attached s' k t c.
+Proof. intros E (tp & ch & H). exists tp, ch. rewrite E. exact H. Qed.
+
+Lemma Attached_ensure_topic s t0 eph k t c : Attached s k t c -> Attached (ensure_topic s t0 eph) k t c.
+Proof.
+  intros (tp & ch & Htp & H). unfold ensure_topic. destruct (find_topic s t0); [exists tp, ch; auto|].
+  exists tp, ch. split; [cbn; apply in_app_iff; left; exact Htp|exact H].
+Qed.
+
+Lemma Attached_ensure_chan s t0 c0 teph ceph k t c : Attached s k t c -> Attached (ensure_chan s t0 c0 teph ceph) k t c.
+Proof.
+  intros H. apply (Attached_ensure_topic s t0 teph) in H. unfold ensure_chan.
+  destruct H as (tp & ch & Htp & Et & Hch & Ec & Hk).
+  set (F := fun tp0 : topic => match find_chan tp0 c0 with Some _ => tp0 | None => tp0 <| t_chans ::= fun l => l ++ [new_chan c0 ceph] |> end).
+  exists (if t_id tp =? t0 then F tp else tp), ch. repeat split; auto.
+  - change (s_topics (upd_topic (ensure_topic s t0 teph) t0 F))
+      with (map (fun x => if t_id x =? t0 then F x else x) (s_topics (ensure_topic s t0 teph))).
+    apply in_map_iff. exists tp. auto.
+  - destruct (t_id tp =? t0); [|exact Et]. unfold F. destruct (find_chan tp c0); exact Et.
+  - destruct (t_id tp =? t0); [|exact Hch]. unfold F. destruct (find_chan tp c0); [exact Hch|].
+    cbn. apply in_app_iff. left. exact Hch.
+Qed.
